@@ -109,6 +109,28 @@ func drawC12(t *rapid.T) C12Case {
 		c.Before = append(c.Before, drawHistory(t, c.Set, fmt.Sprintf("h%d", i), true))
 	}
 	c.After = drawHistory(t, c.Set, "after", false)
+	if rapid.IntRange(0, 5).Draw(t, "echo") == 0 {
+		// "echo" mode: a tiny earlier stream (every piece shorter than 16 bytes) and a later stream that
+		// starts with the same bytes and repeats them: anything the match finder remembered from the
+		// earlier stream (hash-table entries written by the scalar tail) changes the later stream's matches
+		raw := rapid.SliceOfN(rapid.ByteRange('a', 'z'), 5, 15).Draw(t, "echo_bytes")
+		h1 := History{Data: gen.Recipe{Segs: []gen.Seg{{Kind: "raw", N: len(raw), Raw: raw}}}, Ops: []gen.Op{{K: "W", N: len(raw)}}}
+		if rapid.Bool().Draw(t, "echo_close") {
+			h1.Ops = append(h1.Ops, gen.Op{K: "C"})
+		}
+		c.Before = []History{h1}
+		// later data: the same bytes, then the same bytes again with the first one changed, then a little more
+		var d2 []byte
+		d2 = append(d2, raw...)
+		for i := 0; i < rapid.IntRange(1, 3).Draw(t, "echo_reps"); i++ {
+			d2 = append(d2, byte('A'+i))
+			d2 = append(d2, raw[1:]...)
+		}
+		d2 = append(d2, []byte("!\n")...)
+		segs := []gen.Seg{{Kind: "raw", N: len(d2), Raw: d2}}
+		total := len(d2)
+		c.After = History{Data: gen.Recipe{Segs: segs}, Ops: []gen.Op{{K: "W", N: total}, {K: "C"}}}
+	}
 	return c
 }
 
